@@ -198,6 +198,10 @@ def shards(tier, seed):
     n3 = 42 if thorough else 22
     for a in range(n3):
         out.append({'kind': 'mean3', 'first': a, 'n_masks': n3})
+    # RDMs.mean for every stack shape around the coincidence n_rdm == n_pairs (a weights vector
+    # is then as long as an RDM vector and per-RDM / per-entry forms can be confused)
+    for n in (2, 3, 4, 5):
+        out.append({'kind': 'meanshape', 'n_cond': n})
     # from_partials coverings
     cov = coverings(tier)
     for blk in _chunks(range(len(cov)), 8 if not thorough else 24):
@@ -353,6 +357,17 @@ def run_shard(shard, ctx):
                 for w in WKINDS:
                     run_case({'kind': 'mean', 'n_cond': 4, 'masks': [subsets[a], subsets[b], subsets[c]],
                               'weights': w, 'vals': 'pos%d' % ((a + b + c) % fills)}, ctx)
+    elif kind == 'meanshape':
+        n = shard['n_cond']
+        L = combi.n_pairs(n)
+        for n_rdm in range(1, L + 3):
+            variants = [[[] for _ in range(n_rdm)]]
+            if L > 1:
+                variants.append([[0]] + [[] for _ in range(n_rdm - 1)])
+                variants.append([[] for _ in range(n_rdm - 1)] + [[L - 1]])
+            for masks in variants:
+                for w in WKINDS:
+                    run_case({'kind': 'mean', 'n_cond': n, 'masks': masks, 'weights': w, 'vals': 'pos0'}, ctx)
     elif kind == 'partials':
         cov = coverings(tier)
         for ci in range(*shard['cov']):
